@@ -83,9 +83,9 @@ package tmi
 //@   property C11 C09
 //@   requires id == ViewIDCommitting || id == ViewIDVoting || id == ViewIDNextRound
 //@   requires s.Voting.Version < MAXU32 && s.Committing.Version < MAXU32 && s.NextRound.Version < MAXU32
-//@   ensures id == ViewIDVoting ==> s.Voting.Version == old(s.Voting.Version) + 1
-//@   ensures id == ViewIDCommitting ==> s.Committing.Version == old(s.Committing.Version) + 1
-//@   ensures id == ViewIDNextRound ==> s.NextRound.Version == old(s.NextRound.Version) + 1
+//@   ensures id == ViewIDVoting ==> s.Voting.Version == old(s.Voting.Version) + 1 && s.Committing.Version == old(s.Committing.Version) && s.NextRound.Version == old(s.NextRound.Version)
+//@   ensures id == ViewIDCommitting ==> s.Committing.Version == old(s.Committing.Version) + 1 && s.Voting.Version == old(s.Voting.Version) && s.NextRound.Version == old(s.NextRound.Version)
+//@   ensures id == ViewIDNextRound ==> s.NextRound.Version == old(s.NextRound.Version) + 1 && s.Voting.Version == old(s.Voting.Version) && s.Committing.Version == old(s.Committing.Version)
 //@   modifies s.Voting.Version, s.Committing.Version, s.NextRound.Version, s.GossipViewManager.Voting.VRV, s.GossipViewManager.Committing.VRV,
 //@       s.GossipViewManager.NextRound.VRV, s.StateMachineViewManager.outgoingView, s.StateMachineViewManager.jumpAhead
 
@@ -474,3 +474,91 @@ package tmi
 //@       s.Committing.Height == old(s.Committing.Height) && s.Committing.Round == old(s.Committing.Round)
 //@   ensures inv-kept: result == nil ==> KInv(s) && VInv(s.Voting) && VInv(s.NextRound) && SepInv(s)
 //@   modifies memory except Kernel, msvh(0), msvr(0), msch(0), mscr(0)
+
+// ---- the live precommit path (C01, C05): the kernel files what the mirror verified ----
+// updOK: every proof in an add-precommit request is non-nil, verified (ProofInv) and is a proof over the addressed view's
+// validator keys for the precommit message of (view height, view round, target).
+//@ define updProofOK(p, v, h) = p != nil && base(p) <= top() && ProofInv(p) && pkeys(p) == v.ValidatorSet.PubKeys &&
+//@     pkhash(p) == string(v.ValidatorSet.PubKeyHash) && pmsg(p) == precommitMsg(v.Height, v.Round, h)
+// ... and an update whose version is stale (a conflict) addresses a target the view already holds (block versions only grow
+// within a view, and the request was computed from an earlier snapshot of the same view).
+//@ define updOK(req, v) = forall h string :: {rawdom(req.PrecommitUpdates)[h]} h in req.PrecommitUpdates ==> updProofOK(mapval(req.PrecommitUpdates, h).Proof, v, h) &&
+//@     (mapval(req.PrecommitUpdates, h).PrevVersion == v.PrecommitBlockVersions[h] || (h in v.PrecommitProofs))
+// The three views do not share vote maps.
+//@ define SepInv3(s) = SepInv(s) && s.Committing.PrecommitProofs != s.Voting.PrecommitProofs && s.Committing.PrecommitProofs != s.NextRound.PrecommitProofs &&
+//@     s.Committing.PrecommitProofs != s.Voting.PrevoteProofs && s.Committing.PrecommitProofs != s.NextRound.PrevoteProofs &&
+//@     s.Committing.VoteSummary.PrecommitBlockPower != s.Voting.VoteSummary.PrecommitBlockPower && s.Committing.VoteSummary.PrecommitBlockPower != s.NextRound.VoteSummary.PrecommitBlockPower &&
+//@     s.Committing.VoteSummary.PrecommitBlockPower != s.Voting.VoteSummary.PrevoteBlockPower && s.Committing.VoteSummary.PrecommitBlockPower != s.NextRound.VoteSummary.PrevoteBlockPower
+
+//@ func Kernel.addPrecommit
+//@   property C01 C05 C09
+//@   option tier thorough
+//@   requires KInv(s) && KBounds(s) && SepInv3(s) && VInv(s.Voting) && VInv(s.NextRound) && powerOK(s.Voting) && powerOK(s.NextRound) && kernelReady(k, s)
+//@   requires s.Committing.Height != 0 ==> VInv(s.Committing)
+//@   requires request-is-for-a-current-view: req.H < s.Voting.Height || (req.H == s.Voting.Height && req.R <= s.Voting.Round + 1)
+//@   requires request-verified: (req.H == s.Voting.Height && req.R == s.Voting.Round ==> updOK(req, s.Voting)) &&
+//@       (req.H == s.Voting.Height && req.R == s.Voting.Round + 1 ==> updOK(req, s.NextRound)) &&
+//@       (req.H != s.Voting.Height && req.H == s.Committing.Height && req.R == s.Committing.Round ==> updOK(req, s.Committing))
+//@   requires len(req.PrecommitUpdates) >= 1 && req.H >= 1
+//@   requires version-headroom: s.Voting.Version < MAXU32 - 4 && s.NextRound.Version < MAXU32 - 4 && s.Committing.Version < MAXU32 - 4
+//@   ensures[C01,C05] commit-holds-certificate: s.Committing.Height != old(s.Committing.Height) ==> certOK(s.Committing, string(s.CommittingHeader.Hash))
+//@   modifies memory except Kernel, hmax(0), hhash(s.Voting.Height), msvh(0), msvr(0), msch(0), mscr(0), chanclosed(s.StateMachineViewManager.roundEntrance.HeightCommitted)
+//@   loop 1 invariant addressed-view: vrv == addr(s.Voting) || vrv == addr(s.NextRound) || (vrv == addr(s.Committing) && s.Committing.Height != 0)
+//@   loop 1 invariant views-stay-verified: VInv(s.Voting) && VInv(s.NextRound) && (s.Committing.Height != 0 ==> VInv(s.Committing)) && KInv(s) && KBounds(s) && SepInv3(s) && kernelReady(k, s)
+//@   loop 1 invariant request-verified: updOK(req, vrv) && vrv.Height == req.H && vrv.Round == req.R
+//@   loop 1 invariant headroom: s.Voting.Version < MAXU32 - 4 && s.NextRound.Version < MAXU32 - 4 && s.Committing.Version < MAXU32 - 4
+//@   loop 1 invariant untouched-summaries: (vrv != addr(s.Voting) ==> powerOK(s.Voting)) && (vrv != addr(s.NextRound) ==> powerOK(s.NextRound))
+//@   loop 1 invariant not-added-means-unchanged: !anyAdded ==> powerOK(s.Voting) && powerOK(s.NextRound)
+//@   loop 1 invariant visited-targets-are-held: forall h string :: {visited(1)[h]} visited(1)[h] ==> (h in vrv.PrecommitProofs)
+
+// ---- the live prevote path (C05): mirror image of the precommit path, without a commit step ----
+//@ define prevoteOK(v, h) = mapvals(v.PrevoteProofs)[h] != nil && base(mapvals(v.PrevoteProofs)[h]) <= top() && ProofInv(mapvals(v.PrevoteProofs)[h]) &&
+//@     pkeys(mapvals(v.PrevoteProofs)[h]) == v.ValidatorSet.PubKeys && pkhash(mapvals(v.PrevoteProofs)[h]) == string(v.ValidatorSet.PubKeyHash) &&
+//@     pmsg(mapvals(v.PrevoteProofs)[h]) == prevoteMsg(v.Height, v.Round, h)
+//@ define PVInv(v) = v.PrevoteProofs != nil && v.VoteSummary.PrevoteBlockPower != nil &&
+//@     (forall h string :: {rawdom(v.PrevoteProofs)[h]} h in v.PrevoteProofs ==> prevoteOK(v, h))
+//@ define prevoteTargetsOK(v) = forall h string :: {rawdom(v.VoteSummary.PrevoteBlockPower)[h]} (h in v.VoteSummary.PrevoteBlockPower) ==> (h in v.PrevoteProofs)
+//@ define updPrevoteProofOK(p, v, h) = p != nil && base(p) <= top() && ProofInv(p) && pkeys(p) == v.ValidatorSet.PubKeys &&
+//@     pkhash(p) == string(v.ValidatorSet.PubKeyHash) && pmsg(p) == prevoteMsg(v.Height, v.Round, h)
+//@ define updPrevoteOK(req, v) = forall h string :: {rawdom(req.PrevoteUpdates)[h]} h in req.PrevoteUpdates ==> updPrevoteProofOK(mapval(req.PrevoteUpdates, h).Proof, v, h) &&
+//@     (mapval(req.PrevoteUpdates, h).PrevVersion == v.PrevoteBlockVersions[h] || (h in v.PrevoteProofs))
+//@ define PSepInv3(s) = s.Committing.PrevoteProofs != s.Voting.PrevoteProofs && s.Committing.PrevoteProofs != s.NextRound.PrevoteProofs &&
+//@     s.Committing.PrevoteProofs != s.Voting.PrecommitProofs && s.Committing.PrevoteProofs != s.NextRound.PrecommitProofs &&
+//@     s.Committing.PrevoteProofs != s.Committing.PrecommitProofs && s.Voting.PrevoteProofs != s.Voting.PrecommitProofs && s.NextRound.PrevoteProofs != s.NextRound.PrecommitProofs &&
+//@     s.Committing.VoteSummary.PrevoteBlockPower != s.Voting.VoteSummary.PrevoteBlockPower && s.Committing.VoteSummary.PrevoteBlockPower != s.NextRound.VoteSummary.PrevoteBlockPower &&
+//@     s.Committing.VoteSummary.PrevoteBlockPower != s.Voting.VoteSummary.PrecommitBlockPower && s.Committing.VoteSummary.PrevoteBlockPower != s.NextRound.VoteSummary.PrecommitBlockPower &&
+//@     s.Committing.VoteSummary.PrevoteBlockPower != s.Committing.VoteSummary.PrecommitBlockPower && s.Voting.VoteSummary.PrevoteBlockPower != s.Voting.VoteSummary.PrecommitBlockPower &&
+//@     s.NextRound.VoteSummary.PrevoteBlockPower != s.NextRound.VoteSummary.PrecommitBlockPower
+
+//@ func Kernel.checkPrevoteViewShift
+//@   property C09
+//@   requires vID == ViewIDNextRound
+//@   requires KInv(s) && KBounds(s) && SepInv(s) && VInv(s.Voting) && VInv(s.NextRound) && kernelReady(k, s)
+//@   requires PVInv(s.NextRound)
+//@   requires most-voted-instance: (s.NextRound.VoteSummary.MostVotedPrevoteHash in s.NextRound.VoteSummary.PrevoteBlockPower) ==>
+//@       (s.NextRound.VoteSummary.MostVotedPrevoteHash in s.NextRound.PrevoteProofs)
+//@   ensures position: s.Voting.Height == old(s.Voting.Height) && (s.Voting.Round == old(s.Voting.Round) || s.Voting.Round == old(s.Voting.Round) + 1) &&
+//@       s.Committing.Height == old(s.Committing.Height) && s.Committing.Round == old(s.Committing.Round)
+//@   ensures inv-kept: result == nil ==> KInv(s) && VInv(s.Voting) && VInv(s.NextRound) && SepInv(s)
+//@   modifies memory except Kernel, msvh(0), msvr(0), msch(0), mscr(0)
+
+//@ func Kernel.addPrevote
+//@   property C05 C09
+//@   option tier thorough
+//@   requires KInv(s) && KBounds(s) && SepInv3(s) && PSepInv3(s) && VInv(s.Voting) && VInv(s.NextRound) && PVInv(s.Voting) && PVInv(s.NextRound) && kernelReady(k, s)
+//@   requires s.Committing.Height != 0 ==> VInv(s.Committing) && PVInv(s.Committing)
+//@   requires request-is-for-a-current-view: req.H < s.Voting.Height || (req.H == s.Voting.Height && req.R <= s.Voting.Round + 1)
+//@   requires request-verified: (req.H == s.Voting.Height && req.R == s.Voting.Round ==> updPrevoteOK(req, s.Voting)) &&
+//@       (req.H == s.Voting.Height && req.R == s.Voting.Round + 1 ==> updPrevoteOK(req, s.NextRound)) &&
+//@       (req.H != s.Voting.Height && req.H == s.Committing.Height && req.R == s.Committing.Round ==> updPrevoteOK(req, s.Committing))
+//@   requires len(req.PrevoteUpdates) >= 1 && req.H >= 1 && prevoteTargetsOK(s.NextRound)
+//@   requires version-headroom: s.Voting.Version < MAXU32 - 4 && s.NextRound.Version < MAXU32 - 4 && s.Committing.Version < MAXU32 - 4
+//@   ensures positions: s.Committing.Height == old(s.Committing.Height) && s.Voting.Height == old(s.Voting.Height)
+//@   modifies memory except Kernel, msvh(0), msvr(0), msch(0), mscr(0)
+//@   loop 1 invariant addressed-view: vrv == addr(s.Voting) || vrv == addr(s.NextRound) || (vrv == addr(s.Committing) && s.Committing.Height != 0)
+//@   loop 1 invariant views-stay-verified: VInv(s.Voting) && VInv(s.NextRound) && PVInv(s.Voting) && PVInv(s.NextRound) && (s.Committing.Height != 0 ==> VInv(s.Committing) && PVInv(s.Committing)) &&
+//@       KInv(s) && KBounds(s) && SepInv3(s) && PSepInv3(s) && kernelReady(k, s)
+//@   loop 1 invariant request-verified: updPrevoteOK(req, vrv) && vrv.Height == req.H && vrv.Round == req.R
+//@   loop 1 invariant headroom: s.Voting.Version < MAXU32 - 4 && s.NextRound.Version < MAXU32 - 4 && s.Committing.Version < MAXU32 - 4
+//@   loop 1 invariant visited-targets-are-held: forall h string :: {visited(1)[h]} visited(1)[h] ==> (h in vrv.PrevoteProofs)
+//@   loop 1 invariant untouched-targets: (!anyAdded || vrv != addr(s.NextRound)) ==> prevoteTargetsOK(s.NextRound)
